@@ -55,6 +55,11 @@ type Case struct {
 	// CaseTwin: the last statement's scope is the first statement's scope with another
 	// letter case in the host part (scopes are compared exactly)
 	CaseTwin bool `json:"caseTwin,omitempty"`
+	// RotatedFrom (scripted store): while the verifier is created and serves its earlier
+	// verifications every store holds this content ("r" the signer's root, "u" an unrelated
+	// root); then the stores get the contents of the case. Trust comes from what the listed
+	// stores hold when the verification happens
+	RotatedFrom string `json:"rotatedFrom,omitempty"`
 }
 
 // Step is an earlier verification on the same verifier instance (its result is not judged;
@@ -140,7 +145,7 @@ func model(c Case) (pass bool, listedErr bool) {
 			continue
 		}
 		content, ok := c.Stores[ref]
-		if !ok || content == "" || strings.ContainsAny(content, "ES") {
+		if !ok || content == "" || strings.ContainsAny(content, "ESD") {
 			return false, true // a listed store of the required type cannot be loaded
 		}
 		if c.RealStore && strings.Contains(content, "l") {
@@ -175,6 +180,7 @@ func check(c Case) (string, string, bool) {
 	var ts truststore.X509TrustStore
 	var calls func() []string
 	resetCalls := func() {}
+	rotate := func() {}
 	if c.RealStore {
 		root, err := os.MkdirTemp("", "c03-")
 		if err != nil {
@@ -195,6 +201,12 @@ func check(c Case) (string, string, bool) {
 				os.WriteFile(filepath.Join(target, "root.pem"), pki.PEM(chain.Root().Cert), 0o644)
 				os.MkdirAll(filepath.Dir(d), 0o755)
 				os.Symlink(target, d)
+			case strings.Contains(content, "D"):
+				// an unrelated root in a regular file, the signer's root one level down: a named store
+				// is a flat directory of certificate files, one holding a sub-directory is unloadable
+				os.MkdirAll(filepath.Join(d, "more"), 0o755)
+				os.WriteFile(filepath.Join(d, "a-unrelated.pem"), pki.PEM(unrelated.Cert), 0o644)
+				os.WriteFile(filepath.Join(d, "more", "root.pem"), pki.PEM(chain.Root().Cert), 0o644)
 			case strings.Contains(content, "E"):
 				os.MkdirAll(d, 0o755)
 				os.WriteFile(filepath.Join(d, "broken.pem"), []byte("this is not a certificate"), 0o644)
@@ -218,14 +230,27 @@ func check(c Case) (string, string, bool) {
 		resetCalls = func() { lts.calls = nil }
 	} else {
 		mts := mocks.NewTrustStore()
-		for ref, content := range c.Stores {
-			typ, name, _ := strings.Cut(ref, ":")
-			switch {
-			case strings.ContainsAny(content, "ES"):
-				mts.Fail(typ, name, errors.New("scripted load error"))
-			case content != "":
-				mts.Put(typ, name, certsFor(content)...)
+		fill := func() {
+			for ref, content := range c.Stores {
+				typ, name, _ := strings.Cut(ref, ":")
+				delete(mts.Certs, ref)
+				delete(mts.Errs, ref)
+				switch {
+				case strings.ContainsAny(content, "ESD"):
+					mts.Fail(typ, name, errors.New("scripted load error"))
+				case content != "":
+					mts.Put(typ, name, certsFor(content)...)
+				}
 			}
+		}
+		if c.RotatedFrom != "" {
+			for ref := range c.Stores {
+				typ, name, _ := strings.Cut(ref, ":")
+				mts.Put(typ, name, certsFor(c.RotatedFrom)...)
+			}
+			rotate = fill
+		} else {
+			fill()
 		}
 		ts, calls = mts, func() []string { return mts.Calls }
 		resetCalls = func() { mts.Calls = nil }
@@ -264,6 +289,10 @@ func check(c Case) (string, string, bool) {
 		}
 		v.Verify(context.Background(), desc, envb.Build(ws), notation.VerifierVerifyOptions{ArtifactReference: refFor(w.Select), SignatureMediaType: w.Format})
 	}
+	if c.RotatedFrom != "" && len(c.Warmup) == 0 {
+		v.Verify(context.Background(), desc, env, notation.VerifierVerifyOptions{ArtifactReference: refFor(c.Select), SignatureMediaType: c.Format})
+	}
+	rotate()
 	resetCalls()
 	ref := refFor(c.Select)
 	out, verr := v.Verify(context.Background(), desc, env, notation.VerifierVerifyOptions{ArtifactReference: ref, SignatureMediaType: c.Format})
@@ -373,6 +402,12 @@ func record(rec *stats.Recorder, c Case, pass bool) {
 	if c.Wildcard && c.WildcardAt < len(c.Statements)-1 {
 		cl = append(cl, "wildcard-statement-before-exact")
 	}
+	if c.RotatedFrom != "" {
+		cl = append(cl, "store-contents-rotated-on-long-lived-verifier")
+		if c.RotatedFrom == "r" && !pass {
+			cl = append(cl, "trust-withdrawn-by-rotation")
+		}
+	}
 	if c.RealStore {
 		cl = append(cl, "real-directory-store")
 		for ref, content := range c.Stores {
@@ -381,6 +416,9 @@ func record(rec *stats.Recorder, c Case, pass bool) {
 			}
 			if listed[ref] && strings.Contains(content, "l") {
 				cl = append(cl, "listed-store-bundle-ends-in-leaf")
+			}
+			if listed[ref] && strings.Contains(content, "D") {
+				cl = append(cl, "listed-store-holds-sub-directory")
 			}
 		}
 	}
@@ -410,7 +448,7 @@ func record(rec *stats.Recorder, c Case, pass bool) {
 		keys = append(keys, k+"="+v)
 	}
 	sort.Strings(keys)
-	rec.Case(dedup(cl), nt, stats.Fingerprint(strings.Join(keys, ";"), fmt.Sprint(c.Statements), c.Wildcard, c.WildcardAt, c.Select, c.Scheme, c.Format, c.Level.Key(), c.RealStore, fmt.Sprint(c.Warmup), c.Plugin, c.CaseTwin), func() any { return c })
+	rec.Case(dedup(cl), nt, stats.Fingerprint(strings.Join(keys, ";"), fmt.Sprint(c.Statements), c.Wildcard, c.WildcardAt, c.Select, c.Scheme, c.Format, c.Level.Key(), c.RealStore, fmt.Sprint(c.Warmup), c.Plugin, c.CaseTwin, c.RotatedFrom), func() any { return c })
 }
 
 func dedup(in []string) []string {
@@ -436,7 +474,7 @@ func TestC03_Placements(t *testing.T) {
 		c.RealStore = rapid.IntRange(0, 5).Draw(rt, "realStore") == 0
 		contents := []string{"", "E", "u", "r", "i", "l", "ur", "ru", "il", "uE", "rE"}
 		if c.RealStore { // the directory store only loads CA / self-signed certificates: a leaf makes a store unloadable
-			contents = []string{"", "E", "u", "r", "i", "ur", "ru", "iu", "uE", "rE", "S", "S", "ul", "rl", "il"}
+			contents = []string{"", "E", "u", "r", "i", "ur", "ru", "iu", "uE", "rE", "S", "S", "ul", "rl", "il", "uD", "uD"}
 		}
 		for _, ref := range append(append([]string{}, universe...), unlistedStores...) {
 			content := rp.Pick(rt, "content:"+ref, contents...)
@@ -458,6 +496,9 @@ func TestC03_Placements(t *testing.T) {
 		c.WildcardAt = rapid.IntRange(0, n-1).Draw(rt, "wildcardAt")
 		c.Select = rapid.IntRange(0, n-1).Draw(rt, "select")
 		c.Plugin = rp.Pick(rt, "plugin", "", "", "", "ti", "ti", "rev", "both")
+		if !c.RealStore {
+			c.RotatedFrom = rp.Pick(rt, "rotatedFrom", "", "", "", "r", "r", "u")
+		}
 		if n > 1 && !(c.Wildcard && (c.WildcardAt == 0 || c.WildcardAt == n-1)) {
 			c.CaseTwin = rapid.IntRange(0, 2).Draw(rt, "caseTwin") == 0
 		}
